@@ -24,4 +24,93 @@ def confinedOK (txPanicked errReturned stateUnchanged : Bool) : Bool :=
 def LpInv (lp : LiqProt) : Bool :=
   (!lp.active || decide (lp.epochLen ≠ 0)) && decide (lp.cur ≤ lp.max) && decide (lp.max < two256)
 
+/-! ### ratio-shifting policy (PMTP) -/
+
+/-- bound (as a power of two) on the compounded policy factor `(1+blockRate)^numBlocks` -/
+def KPOW : Nat := 202
+/-- raw bound on the inter-policy rate before/while a policy runs (2^250 / 10^18 ≈ 1.8·10^57) -/
+def B1 : Int := 2 ^ 250
+/-- raw bound on the running rate at any time -/
+def B2 : Int := 2 ^ 270
+
+def numBlocks (pm : Pmtp) : Int := pm.end_ - pm.start + 1
+def numEpochs (pm : Pmtp) : Int := Int.tdiv (numBlocks pm) pm.epochLen
+
+/-- `(1 + b + 1ulp)^n ≤ 2^KPOW`: the square-and-multiply loop of `Dec.Power` cannot overflow -/
+def PowBoundP (b : Dec) (n : Nat) : Prop :=
+  0 ≤ b.i ∧ (Dec.P + b.i.toNat + 1) ^ n ≤ 2 ^ KPOW * Dec.P ^ n
+
+/-- what the (repaired, F12) validation of `UpdatePmtpParams` guarantees of a policy that has not
+    started yet -/
+def ParamsOKP (pm : Pmtp) : Prop :=
+  1 ≤ pm.epochLen ∧ 1 ≤ pm.start ∧ pm.start ≤ pm.end_ ∧ pm.end_ < two63 ∧
+  Int.tmod (numBlocks pm) pm.epochLen = 0 ∧
+  0 ≤ pm.gov.i ∧ pm.gov.i ≤ Dec.P ∧ pm.gov.i * numEpochs pm ≤ 50 * Dec.P
+
+/-- ENVIRONMENT ASSUMPTION on `math.Pow` in `PolicyStart` (evaluated by the harness on every block
+    rate the real code derives): the block rate is ≥ 0 and, compounded over the policy, stays within
+    a factor 2 of the governance rate compounded over the epochs -/
+def PowAccurateP (pm : Pmtp) (b : Dec) : Prop :=
+  0 ≤ b.i ∧
+  (Dec.P + b.i.toNat + 1) ^ (numBlocks pm).toNat * Dec.P ^ (numEpochs pm).toNat
+    ≤ 2 * (Dec.P + pm.gov.i.toNat) ^ (numEpochs pm).toNat * Dec.P ^ (numBlocks pm).toNat
+
+def ctrZero (pm : Pmtp) : Prop := pm.epochCtr = 0 ∧ pm.blockCtr = 0
+
+/-- invariant of the PMTP state, indexed by the next height `h` to be processed:
+    before the start (h ≤ start) the counters are zero and the parameters are as validated;
+    inside the window the stored block rate satisfies the power bound; after the end the counters
+    are zero again.  The rates stay above −1 and inside the Dec range with room to add. -/
+def PmtpInvP (pm : Pmtp) (h : Int) : Prop :=
+  pm.start ≤ pm.end_ ∧ -(Dec.P : Int) < pm.inter.i ∧ -(Dec.P : Int) < pm.running.i ∧ pm.inter.i ≤ B2 ∧ pm.running.i ≤ B2 ∧
+  (h ≤ pm.start → ctrZero pm ∧ ParamsOKP pm ∧ pm.inter.i ≤ B1) ∧
+  (pm.start < h ∧ h ≤ pm.end_ → 1 ≤ pm.start ∧ pm.end_ < two63 ∧ PowBoundP pm.blockRate (numBlocks pm).toNat ∧ pm.inter.i ≤ B1) ∧
+  (pm.end_ < h → ctrZero pm)
+
+def powRateOK (pm : Pmtp) : Option Dec → Prop
+  | some b => PowAccurateP pm b
+  | none => False
+
+/-- per-block environment: a height inside the envelope, and — on the block that starts a policy —
+    a block rate from `math.Pow` that satisfies the accuracy assumption -/
+def EnvOKP (pm : Pmtp) (env : BEnv) : Prop :=
+  0 < env.h ∧ env.h < 2 ^ 62 ∧ (env.h = pm.start → powRateOK pm env.powRate)
+
+/-- pool depths: balance + liabilities fit an sdk.Uint (envelope of DESIGN.md section 5) -/
+def PoolsOKP (pools : List PoolDepth) : Prop :=
+  ∀ p ∈ pools, p.nb + p.nl < two256 ∧ p.eb + p.el < two256
+
+instance (b : Dec) (n : Nat) : Decidable (PowBoundP b n) := by unfold PowBoundP; infer_instance
+instance (pm : Pmtp) : Decidable (ParamsOKP pm) := by unfold ParamsOKP; infer_instance
+instance (pm : Pmtp) (b : Dec) : Decidable (PowAccurateP pm b) := by unfold PowAccurateP; infer_instance
+instance (pm : Pmtp) : Decidable (ctrZero pm) := by unfold ctrZero; infer_instance
+instance (pm : Pmtp) (h : Int) : Decidable (PmtpInvP pm h) := by unfold PmtpInvP; infer_instance
+instance (pm : Pmtp) (o : Option Dec) : Decidable (powRateOK pm o) := by
+  cases o <;> unfold powRateOK <;> infer_instance
+instance (pm : Pmtp) (env : BEnv) : Decidable (EnvOKP pm env) := by unfold EnvOKP; infer_instance
+instance (pools : List PoolDepth) : Decidable (PoolsOKP pools) := by unfold PoolsOKP; infer_instance
+
+/-! ### histories of blocks -/
+
+/-- what permissionless traffic between two BeginBlockers can do to the state this hook reads: move
+    the current liquidity-protection threshold, never above the maximum
+    (`MustUpdateLiquidityProtectionThreshold`); pool depths arrive with the next block's `BEnv` -/
+def userMove (s : BState) (c : Nat) : BState := { s with lp := { s.lp with cur := min c s.lp.max } }
+
+/-- a history: BeginBlocker, traffic, BeginBlocker, … ; a panic (`.error`) halts the chain -/
+def runBlocks : BState → List (BEnv × Nat) → M BState
+  | s, [] => .ok s
+  | s, (e, c) :: es => (beginBlock s e).bind (fun o => runBlocks (userMove o.st c) es)
+
+/-- consecutive heights starting at `h`, each block inside the envelope (`EnvOKP`, `PoolsOKP`) -/
+def BlocksOKP (pm : Pmtp) : Int → List (BEnv × Nat) → Prop
+  | _, [] => True
+  | h, (e, _) :: es => e.h = h ∧ EnvOKP pm e ∧ PoolsOKP e.pools ∧ BlocksOKP pm (h + 1) es
+
+/-- the decidable (Boolean) forms evaluated by the driver -/
+def PmtpInv (pm : Pmtp) (h : Int) : Bool := decide (PmtpInvP pm h)
+def PowAccurate (pm : Pmtp) (b : Dec) : Bool := decide (PowAccurateP pm b)
+def PoolsOK (pools : List PoolDepth) : Bool := decide (PoolsOKP pools)
+def EnvOK (pm : Pmtp) (env : BEnv) : Bool := decide (EnvOKP pm env)
+
 end Sif.Spec.C10
